@@ -11,7 +11,8 @@ Nothing here calls cfdm.  For every append of a scenario:
      old      every field read before is read after (full fingerprint incl. netCDF names and
               nc_global_attributes), as a multiset;
      globals  the dataset's global attributes are unchanged (netCDF4 view);
-     file     every variable and dimension of the dataset is unchanged (netCDF4 view);
+     file     every variable (dimensions, shape = current lengths of its dimensions, data type, attributes, contents) and
+              every dimension (length, unlimited or not) of the dataset is unchanged (netCDF4 view);
      new      exactly one more field per appended construct, each equal to the construct (as its
               own mode-'w' round trip returns it) in everything but netCDF names and the
               properties that the dataset holds as global attributes.
@@ -38,12 +39,14 @@ PRIORITY = [
     "compatible-featureType-refused",
     "append-domain-attributeerror",
     "missing-value-differs-from-fill-value-rejected",
+    "dimension-name-used-as-coordinate-variable-name",
     "name-with-blank-clash",
     "name-in-use-clash",
     "dry-run-registry-names-not-in-dataset",
     "supported-request-failed",
     "external-variable-not-declared",
     "formula-terms-dropped",
+    "scalar-formula-term-parameter-written-again",
     "formula-terms-on-shared-coordinate",
     "description-property-dropped",
     "old-field-differs-file-unchanged:datum",
@@ -96,7 +99,7 @@ def _file_changes(step):
     for k, v in v0["v"].items():
         w = v1["v"].get(k)
         if w != v:
-            what = "missing" if w is None else ",".join(x for x in ("dims", "dtype", "attrs", "sha") if w[x] != v[x])
+            what = "missing" if w is None else ",".join(x for x in ("dims", "shape", "dtype", "attrs", "sha") if w.get(x) != v.get(x))
             out.append(("old-variable-modified", f"variable {k} changed: {what}"))
     return out
 
@@ -207,6 +210,28 @@ def _new_mechanism(step, default):
         # an external cell measure whose name the dataset's external_variables attribute does not list:
         # global attributes are not rewritten, so the new variable's cell_measures entry dangles
         return "external-variable-not-declared"
+    # a new variable refers (grid_mapping, coordinates, …) to a name `<base>_<k>` that is not in the dataset although
+    # `<base>` is: a name that the dry run made up when it re-allocated the names of the fields read back
+    import re as _re
+    for k, v in newv.items():
+        for a in REFS:
+            x = v["attrs"].get(a)
+            if not isinstance(x, str):
+                continue
+            for tok in x.split():
+                tok = tok.rstrip(":")
+                m = _re.match(r"^(.*)_\d+$", tok)
+                if m and tok not in v1["v"] and tok not in listed and m.group(1) in v0["v"]:
+                    return "dry-run-registry-names-not-in-dataset"
+    terms = [t for f in step["feats"] for t in f.get("scalar_terms", ())]
+    if terms:
+        # a scalar formula-term parameter written again as a 0-d variable that nothing refers to (the owning
+        # coordinate variable is shared, and keeps the formula_terms attribute it had)
+        import re
+        referred = " ".join(str(v["attrs"].get("formula_terms", "")) for v in v1["v"].values())
+        for k, v in newv.items():
+            if not v["dims"] and re.sub(r"_\d+$", "", k) in terms and not re.search(r":\s*" + re.escape(k) + r"(\s|$)", referred):
+                return "scalar-formula-term-parameter-written-again"
     if any(f["formula_terms"] for f in step["feats"]):
         new_owner = any("computed_standard_name" in v["attrs"] and "formula_terms" not in v["attrs"] for v in newv.values())
         if new_owner and not any("formula_terms" in v["attrs"] for v in newv.values()):
@@ -308,6 +333,12 @@ def _failure_code(step):
     if "cannot find dimension" in msg:
         return "dry-run-registry-names-not-in-dataset"
     if "name in use" in msg or "Can't create variable" in msg or "Can't create size" in msg:
+        inuse = set(step["view0"]["d"]) | set(step["view0"]["v"])
+        anon = [d for f in step["feats"] for d in f.get("anon_dc", ())]
+        if any(d in inuse for d in anon) or len(anon) != len(set(anon)):
+            # a dimension coordinate named after its axis' netCDF dimension, which is (or, within the batch,
+            # has just become) a name in use: that name is the one the writer does not make unique
+            return "dimension-name-used-as-coordinate-variable-name"
         blank = any(" " in str(b) for f in step["feats"] for b in f.get("bases", ()))
         return "name-with-blank-clash" if blank else "name-in-use-clash"
     return "supported-request-failed"
